@@ -139,7 +139,7 @@ func main() {
 		return
 	}
 
-	n := r.N(60, 900)
+	n := r.N(60, 1500)
 	if b := os.Getenv("C08_BATCH"); b != "" {
 		var lo, hi int
 		fmt.Sscanf(b, "%d:%d", &lo, &hi)
